@@ -109,6 +109,13 @@ def run_numeric(prop, tier, ops, alphas, alpha_of_type, ralpha_of_type, unary32_
     l2 = list(compositions(ops))
     for part in chunks(l2, 400):
         jobs.append(('L2', make_batch(part, alphas, ralpha_of_type), {}))
+    # the pretty-printed output format (-p) has its own branches in the expression writers (spacing, parentheses): level 1 again with -p,
+    # thorough: level 2 too
+    for part in chunks(l1, 8):
+        jobs.append(('L1-pretty', make_batch(part, alphas, alpha_of_type, direct=False), {'w2c2_args': ('-p',)}))
+    if tier == 'thorough':
+        for part in chunks(l2, 400):
+            jobs.append(('L2-pretty', make_batch(part, alphas, ralpha_of_type), {'w2c2_args': ('-p',)}))
     if tier == 'thorough':
         # level 1 again, compiled by gcc -O2 (different folding of the macros)
         for part in chunks(l1, 8):
@@ -152,7 +159,7 @@ def run_numeric(prop, tier, ops, alphas, alpha_of_type, ralpha_of_type, unary32_
     chk.cov['levels'] = levels
     chk.cov['rule'] = ('every opcode of the set as a one-instruction function over the full cross product of the boundary alphabets (L1), '
                        'every type-correct composition of two opcodes in both operand positions over reduced alphabets (L2), '
-                       'thorough: all 2^32 inputs of every unary opcode with a 32-bit operand (X32); a program is non-trivial iff the '
+                       'L1 again (thorough: L2 too) translated with -p (pretty-printed output has its own branches in the expression writers); thorough: all 2^32 inputs of every unary opcode with a 32-bit operand (X32); a program is non-trivial iff the '
                        'reference outcome (value/trap) is not constant over its inputs; ' + level_note)
     for t in l1[:3] + l2[:3]:
         chk.sample({'program': describe(t)})
